@@ -20,6 +20,7 @@ import math
 import numpy as np
 
 from ..lattice import Rel, with_ids
+from .. import wg
 from ..oracles import c13_oracle as O
 
 LEVEL = "exploration"
@@ -460,8 +461,7 @@ def case_tmunu(p: dict) -> dict:
             for k, nm in enumerate(names):
                 dim = 4 if nm == "perp" else 2 + int(nm[0]) + int(nm[1])
                 ref[k, i, j] = float(O.moment_ref(kss[i], taus[i], round(mr, 12), nm)) * T0**dim
-    eom = EOM.__new__(EOM)  # deltaToTmunu reads only self.particles
-    eom.particles = parts
+    eom = wg.construct_eom(grid=grid, particles=parts)  # real constructor; the particles reach the EOM through its BoltzmannSolver
     interior = WallGo.Fields(phi[1:-1, None])
 
     def poly(arr):  # what getDeltas returns: Polynomial over (particle, z)
@@ -479,6 +479,13 @@ def case_tmunu(p: dict) -> dict:
         r.true("no-exception-getDeltas", False, error=repr(e))
         dB = None
     gam2 = 1.0 / (1.0 - v * v)
+    # the object has been used before, for ANOTHER frame velocity (a wall solver calls it for one wall after the other): the result
+    # must depend on the arguments of the call only
+    try:
+        eom.deltaToTmunu(0, interior.getFieldPoint(0), -0.73 if abs(v + 0.73) > 1e-9 else 0.41, dA)
+        r.tag("object-used-before-with-other-frame-velocity")
+    except Exception as e:  # noqa: BLE001
+        r.true("no-exception-previous-call", False, error=repr(e))
     for j in range(Z):
         Tpl = np.zeros((4, 4))
         for i in range(P):
